@@ -40,6 +40,20 @@ var c18FieldUses = []struct{ name, stmt string }{
 	{"overwrite-then-get_type", "o.set(\"k\", 2);\n    println(o.get_type(\"k\"));"},
 	{"copy-then-get_type", "let p = o;\n    p.set(\"other\", 1);\n    println(p.get_type(\"k\"), o.keys());"},
 	{"in-list-then-get_type", "let l = [o];\n    println(l[0].get_type(\"k\"));"},
+	// read back under a type: admitted or refused with a cast error, never a crash, and a function
+	// is no value of any of these types
+	{"read-as:int", c18ReadAs("o~>k as int")},
+	{"read-as:str", c18ReadAs("o~>k as str")},
+	{"read-as:list", c18ReadAs("o~>k as [int]")},
+	{"read-as:object", c18ReadAs("o~>k as { a: int }")},
+	{"read-as:any-object", c18ReadAs("o~>k as { ? }")},
+	{"read-as:option", c18ReadAs("o->k as ?str")},
+	{"read-as:option-of-list", c18ReadAs("o->k as ?[int]")},
+	{"get-unwrap-as:int", c18ReadAs("o.get(\"k\").unwrap() as int")},
+}
+
+func c18ReadAs(expr string) string {
+	return "try {\n        let v = " + expr + ";\n        println(\"admitted\");\n    } catch e {\n        println(\"refused\");\n    }"
 }
 
 func c18FieldCount() int { return len(c18FieldKinds) * len(c18FieldUses) }
@@ -86,6 +100,9 @@ func c18Fields(_ string, idx int, r *Result) {
 	if ov.Out != ot.Out {
 		r.Fail("MEMBER:the value libraries answer differently", tags, text, fmt.Sprintf("vm: %s\ntree: %s", ov.String(), ot.String()))
 		return
+	}
+	if typeName == "function" && strings.Contains(strings.Join(tags, ","), "use:read-as:") && strings.HasPrefix(ov.Out, "admitted") {
+		r.Fail("MEMBER:a function was admitted under a data type", tags, text, ov.String())
 	}
 	if hasTag(tags, "use:get_type") || hasTag(tags, "use:in-list-then-get_type") {
 		if first := strings.SplitN(ov.Out, "\n", 2)[0]; first != typeName {
